@@ -55,7 +55,10 @@ def evaluate(case, out):
         for con in contests.values():
             if con.audit_type == "ONEAUDIT":
                 for a in con.assertions.values():
-                    a.assorter.set_tally_pool_means(cvr_list=cvrs, use_style=us)
+                    if len(cvrs) % 2 == 0:
+                        a.assorter.set_tally_pool_means(cvr_list=cvrs, use_style=us)
+                    else:  # the labels of the pooled batches given explicitly, as the ONEAudit notebook does
+                        a.assorter.set_tally_pool_means(cvr_list=cvrs, tally_pools=CVR.pool_contests(cvrs), use_style=us)
         Assertion.set_all_margins_from_cvrs(audit, contests, cvrs)
     except Exception as e:  # noqa
         out.lib_exception("setup", e)
@@ -91,9 +94,17 @@ def evaluate(case, out):
                 continue
             try:
                 d, u = a.mvrs_to_data(ms, cs)
+                d_all, u_all = a.mvrs_to_data(ms, cs, use_all=True)
             except Exception as e:  # noqa
                 out.lib_exception("mvrs_to_data", e)
                 return
+            # use_all: the contest's threshold is ignored, every sampled card whose CVR lists the contest contributes
+            if con.audit_type != "POLLING":
+                want_n = sum(1 for c in cs if (c.has_contest(cid) or not us))
+                out.expect(len(d_all) == want_n and abs(u_all - u) <= 1e-15, "use_all-does-not-take-every-sampled-card-of-the-contest",
+                           lambda: (cid, key, len(d_all), want_n))
+                out.expect(bool(np.all(np.asarray(d_all) >= 0)) and bool(np.all(np.asarray(d_all) <= u * (1 + 1e-12))), "use_all-data-outside-[0,u]",
+                           lambda: (cid, key, list(map(float, d_all))[:8], u))
             d = np.asarray(d, dtype=float)
             judged += 1
             if con.audit_type == "POLLING":
